@@ -32,9 +32,10 @@ THEOREMS = [
     "Pyro.Registry.invW_step", "Pyro.Registry.back_step", "Pyro.Registry.abs_step", "Pyro.Registry.reach",
 ]
 SUITES = ["history"]
-RULE = ("histories (<= 25 steps) over a pool of 13 objects — 6 of 3 ordinary exposed classes (one class falsy, one whose "
+RULE = ("histories (<= 25 steps) over a pool of 16 objects — 6 of 3 ordinary exposed classes (one class falsy, one whose "
         "instances all compare equal), 2 of a __slots__ class that cannot carry the pyro attributes (register must fail "
-        "cleanly), 5 whose classes derive from set / UUID / Decimal / datetime / array — and the 3 ordinary classes "
+        "cleanly), 5 whose classes derive from set / UUID / Decimal / datetime / array, 3 of a base class and its subclass "
+        "(every history starts with no type replacement installed) — and the 3 ordinary classes "
         "themselves; ids: 'Pyro.Daemon', 4 explicit strings, None / '' (generated) / a non-string, and ids generated earlier "
         "in the same history; force and weak flags; the daemon's own DaemonObject as argument; garbage-collection points; "
         "serpent/json/msgpack for returned objects, returned directly or nested in a container; all choices from VERIF_SEED. "
@@ -57,11 +58,12 @@ TRUSTED = ["the in-memory connection and the pool classes of harness/props/c16.p
 #   objects 0-5: instances of the ordinary classes 0-2 (k mod 3); only these classes are ever registered as classes
 #   objects 6-7: instances of class 3, which has __slots__ without _pyroId/_pyroDaemon (setting them raises)
 #   objects 8-12: instances of classes 4-8 deriving from set, uuid.UUID, decimal.Decimal, datetime.datetime, array.array
-NOBJ, NCLS, REGCLS = 13, 9, 3
+#   object 13: instance of the ordinary class 9; objects 14-15: instances of class 10, a SUBCLASS of class 9
+NOBJ, NCLS, REGCLS = 16, 11, 3
 
 
 def class_of(k):
-    return k % 3 if k < 6 else 3 if k < 8 else k - 4
+    return k % 3 if k < 6 else 3 if k < 8 else k - 4 if k < 13 else 9 if k == 13 else 10
 
 NAMES = ["alpha", "b.b", "obj_c", "d-d"]
 SERS = {"s": "serpent", "j": "json", "m": "msgpack"}
@@ -274,6 +276,20 @@ def _facts():
                                                                     for x in got] == [["replaced-by-hook"]]))
                 finally:
                     _forget_types(S, [cls])
+        # serpent dispatches on isinstance: with a replacement installed for a base class and then for its subclass, an
+        # instance of the subclass still gets the replacement
+        ser = S.serializers.get("serpent")
+        if ser is not None:
+            pb = type("C16Probe_base", (object,), {"__module__": "verif_c16_probe"})
+            ps = type("C16Probe_sub", (pb,), {"__module__": "verif_c16_probe"})
+            try:
+                ser.register_type_replacement(pb, lambda obj: ["replaced-by-hook"])
+                ser.register_type_replacement(ps, lambda obj: ["replaced-by-hook"])
+                import serpent as _serpent       # raw decoding: an unreplaced probe object is just a class dict
+                hook_first.append(("serpent:subclass-after-base", _serpent.loads(ser.dumps([ps()])) == [["replaced-by-hook"]]))
+                hook_first.append(("serpent:base", _serpent.loads(ser.dumps([pb()])) == [["replaced-by-hook"]]))
+            finally:
+                _forget_types(S, [pb, ps])
     finally:
         config.SERVERTYPE = old_type
         for d in made:
@@ -413,7 +429,9 @@ class Real:
         self.config, self._servertype = config, config.SERVERTYPE
         config.SERVERTYPE = "multiplex"
         self.log = []
-        self.classes = [self._make_class(c) for c in range(NCLS)]
+        self.classes = []
+        for c in range(NCLS):
+            self.classes.append(self._make_class(c))
         self.sers = {k: serializers.serializers[v] for k, v in SERS.items() if v in serializers.serializers}
         for c, cls in enumerate(self.classes):
             serializers.SerializerBase.register_dict_to_class("%s.PoolC%d" % (self.MODULE, c), self._from_dict)
@@ -446,6 +464,11 @@ class Real:
                 members["__eq__"] = lambda self, other: type(other) is type(self)
                 members["__hash__"] = lambda self: 7
             return self.server.expose(type("PoolC%d" % c, (object,), members))
+        if c >= 9:
+            # two ordinary classes related by inheritance: serializers that dispatch on isinstance (serpent) see an instance
+            # of the subclass through whichever of the two hooks was installed first
+            members["__init__"] = __init__
+            return self.server.expose(type("PoolC%d" % c, (object,) if c == 9 else (self.classes[9],), members))
         if c == 3:
             # no room for the pyro attributes: register() must fail, and fail without side effects
             members["__slots__"] = ("tag", "__weakref__")
@@ -461,7 +484,7 @@ class Real:
     def _make_object(self, k):
         c = class_of(k)
         cls = self.classes[c]
-        if c < 3:
+        if c < 3 or c >= 9:
             return cls(k)
         o = {3: lambda: cls(), 4: lambda: cls(["x", "y"]), 5: lambda: cls(int=k), 6: lambda: cls("1.5"),
              7: lambda: cls(2020, 1, 2, 3, 4, 5), 8: lambda: cls("i", [1, 2, 3])}[c]()
@@ -490,6 +513,9 @@ class Real:
             for a in ("_pyroId", "_pyroDaemon"):
                 if a in cls.__dict__:
                     delattr(cls, a)
+        # every history starts like a fresh process: no type replacement installed yet (their installation ORDER matters to
+        # serializers that dispatch on isinstance)
+        _forget_types(self.serializers, self.classes)
         self.daemon = self.server.Daemon(host="127.0.0.1", port=0)
         self.dobj = self.daemon.objectsById[self.core.DAEMON_NAME]
         self.pool = [self._make_object(k) for k in range(NOBJ)]
@@ -622,7 +648,7 @@ class Real:
             if uri.location != self.daemon.locationStr:
                 return "?proxy-elsewhere"
             return "proxy:%s>%s" % (self.tok_of(uri.object), self.do_call(uri.object, ser))
-        if k >= 8:
+        if 8 <= k < 13:
             return "byvalue"        # whatever data the serializer makes of a set / UUID / Decimal / datetime / array subclass
         if isinstance(val, tuple) and len(val) == 3 and val[0] == "byvalue" and val[2] == "o%d" % k:
             return "byvalue"
@@ -915,6 +941,8 @@ def _gen_history(rng):
         objs += rng.sample(range(6, NOBJ), rng.choice([1, 1, 2, 3]))
         if rng.random() < 0.5:
             objs = objs[-4:]
+    if rng.random() < 0.12:
+        objs = [13, 14] + rng.sample([0, 1, 15], rng.choice([0, 1, 2]))     # base-class object and subclass object together
     nid = rng.choice([1, 2, 4])
 
     def ent():
